@@ -877,6 +877,12 @@ func genExecCaseOpts(rr *rng.R, u progen.Universe, forks []string, journal bool)
 		w.Balance[exCaller] = big.NewInt(3)
 	}
 	w.Nonce[exCaller] = uint64(rr.Intn(3))
+	switch rr.Intn(40) {
+	case 0: // a creator whose nonce cannot be incremented: its CREATE/CREATE2 is refused up front (nonce overflow)
+		w.Nonce[u.Contracts[rr.Intn(len(u.Contracts))]] = ^uint64(0)
+	case 1:
+		w.Nonce[exCaller] = ^uint64(0)
+	}
 	code0 := w.Code[u.Contracts[0]]
 	if cs.Entry >= 4 {
 		code0 = progen.Program(rr, u, progen.Opts{Fork: fi, MaxSnips: 6, Journal: journal, SmallMem: true})
